@@ -183,6 +183,8 @@ type Options struct {
 	WorkbookPrefix string `json:"workbook_prefix,omitempty"`
 	// Extra members are appended verbatim (decoys for the detection property).
 	Extra []zipw.Member `json:"extra,omitempty"`
+	// Strict writes the workbook in the Strict conformance class (namespaces, relationship types).
+	Strict bool `json:"strict,omitempty"`
 	// SheetAttrOrder permutes the attributes of <sheet>: 0 name, sheetId, r:id (what Excel writes);
 	// 1 r:id, sheetId, name; 2 sheetId, r:id, name (attribute order is not significant, XML 1.0 3.1).
 	SheetAttrOrder int `json:"sheet_attr_order,omitempty"`
@@ -887,6 +889,21 @@ func (w Workbook) Members() ([]zipw.Member, error) {
 	}
 	ct.WriteString(`</Types>`)
 	ms[ctIdx].Data = []byte(ct.String())
+	if w.Opt.Strict {
+		// ISO/IEC 29500 Strict: the main and the relationships namespaces (also the prefix of the relationship
+		// types) are the purl.oclc.org ones and the workbook says conformance="strict" (Part 1, 18.2.27, Annex A);
+		// the package-level namespaces (OPC relationships, content types) are the same in both conformance classes
+		for i := range ms {
+			if !strings.HasSuffix(ms[i].Name, ".xml") && !strings.HasSuffix(ms[i].Name, ".rels") {
+				continue
+			}
+			d := string(ms[i].Data)
+			d = strings.ReplaceAll(d, nsMain, "http://purl.oclc.org/ooxml/spreadsheetml/main")
+			d = strings.ReplaceAll(d, nsRel, "http://purl.oclc.org/ooxml/officeDocument/relationships")
+			d = strings.Replace(d, "workbook xmlns", `workbook conformance="strict" xmlns`, 1)
+			ms[i].Data = []byte(d)
+		}
+	}
 	ms = append(ms, w.Opt.Extra...)
 	return zipw.Arrange(ms, w.Opt.Zip), nil
 }
